@@ -1,5 +1,5 @@
 (* Equivalence of the GENERATED model of the signal-definition normalisation of /repo/src/core.c
-   (GenSigDef.v, written by tools/c2gallina.py from the current source: u32_max,
+   (GenCore.v, written by tools/c2gallina.py from the current source: u32_max,
    round_up_to_multiple, signal_def_defaults, jls_core_signal_def_validate,
    jls_core_signal_def_align and the format.h helpers jls_datatype_parse_size / _q / _basetype)
    and the hand-written model SigDef.v.
@@ -12,7 +12,7 @@
    Fault Out_of_fuel.  All six parameters are uint32_t (`in_range`). *)
 From Coq Require Import NArith ZArith List Bool Lia.
 From Coq Require Import ZifyBool ZifyN ZifyNat.
-From JLS Require Import Generated GenLib GenSigDef SigDef SigDefProofs.
+From JLS Require Import Generated GenLib GenCore SigDef SigDefProofs.
 Import ListNotations.
 Local Open Scope N_scope.
 Ltac Zify.zify_post_hook ::= Z.div_mod_to_equations.
